@@ -50,6 +50,8 @@ def _uf():
 
 
 def check(ctx, rep):
+    from . import c24 as _c24, _share as _sh
+    _sh.share(ctx, rep, _c24, ('eof-marker.cut',), 'opening a file never cuts a byte off it except the EOF marker of a text file opened for APPEND')
     n = 0
     typed = 0
     for meth in ('get', 'put', 'eof', '_set_record_pos', 'loc', 'lof'):
